@@ -133,6 +133,8 @@ type ReqFault struct {
 	DataTrunc   int    `json:"data_trunc,omitempty"`   // GET reply payload cut to this many bytes (-1 = no cut) ; value+1 stored, 0 = none
 	DataPad     int    `json:"data_pad,omitempty"`     // GET reply payload extended by this many trailing bytes
 	AckShort    int    `json:"ack_short,omitempty"`    // ACK datagram cut to this many bytes (+1, 0 = none)
+	SpoofLen    int    `json:"spoof_len,omitempty"`    // size of the forged datagram (0: 36, an ACK's size; else 16..96)
+	SpoofMid    bool   `json:"spoof_mid,omitempty"`    // the forged datagram sits between the ACK and the data instead of ahead of the ACK
 	Spoof       int    `json:"spoof,omitempty"`        // 1: a datagram from a non-kernel port id ahead; 2: non-netlink sockaddr ahead
 	AckType     uint16 `json:"ack_type,omitempty"`     // the reply that should be the ACK of a refused request carries this netlink type instead of NLMSG_ERROR (its payload is intact)
 	DataFirst   bool   `json:"data_first,omitempty"`   // GET: the reply (queued by a kernel thread) overtakes the ACK; UnsolMid records sit between the two
@@ -307,16 +309,30 @@ func (k *Kernel) Sendto(wire []byte, dstPid uint32) int {
 	if f.DelayNs > 0 {
 		k.FiredDelay++
 	}
-	if f.Spoof == 1 {
-		b := make([]byte, NlmsgHdrLen+4+NlmsgHdrLen)
+	spoof := func() {
+		// a forged "success" ACK for this very request; with another size it is
+		// filled with bytes that are neither zero nor the poison pattern
+		n := NlmsgHdrLen + 4 + NlmsgHdrLen
+		if f.SpoofLen >= NlmsgHdrLen {
+			n = f.SpoofLen
+		}
+		b := make([]byte, n)
+		for i := NlmsgHdrLen; i < n && f.SpoofLen != 0; i++ {
+			b[i] = byte(0x51 + i)
+		}
 		hdr(b, uint32(len(b)), NlmsgError, 0, r.Seq, r.Pid)
-		k.enqueue(&Datagram{Bytes: b, FromPid: 4242, Req: -1, Kind: DCustom, AvailAt: avail})
+		if n >= NlmsgHdrLen+4 {
+			le.PutUint32(b[NlmsgHdrLen:], 0)
+		}
+		if f.Spoof == 1 {
+			k.enqueue(&Datagram{Bytes: b, FromPid: 4242, Req: -1, Kind: DCustom, AvailAt: avail})
+		} else {
+			k.enqueue(&Datagram{Bytes: b, NonNetlink: true, Req: -1, Kind: DCustom, AvailAt: avail})
+		}
 		k.FiredSpoof++
-	} else if f.Spoof == 2 {
-		b := make([]byte, NlmsgHdrLen+4+NlmsgHdrLen)
-		hdr(b, uint32(len(b)), NlmsgError, 0, r.Seq, r.Pid)
-		k.enqueue(&Datagram{Bytes: b, NonNetlink: true, Req: -1, Kind: DCustom, AvailAt: avail})
-		k.FiredSpoof++
+	}
+	if f.Spoof != 0 && !f.SpoofMid {
+		spoof()
 	}
 	k.Unsolicited(f.UnsolBefore, avail)
 	if f.Stale {
@@ -354,9 +370,16 @@ func (k *Kernel) Sendto(wire []byte, dstPid uint32) int {
 			n := f.AckShort - 1
 			if n < len(ackD.Bytes) {
 				ackD.Bytes = ackD.Bytes[:n]
+				if n >= NlmsgHdrLen+4 {
+					// the errno is there, the echoed request is not (or not all of it): a well-formed short ACK
+					le.PutUint32(ackD.Bytes[0:], uint32(n))
+				}
 				k.FiredTrunc++
 			}
 		}
+	}
+	if f.Spoof != 0 && f.SpoofMid {
+		spoof()
 	}
 	k.Unsolicited(f.UnsolAfter, avail)
 	if errno != 0 {
